@@ -856,6 +856,114 @@ def run_blockmove(prop="C04", tier="quick"):
     return res
 
 
+def stale_views(fn, path, bufs, passthru, prop, res, fx, strip, var):
+    """R-BUFGROW, second clause: a pointer INTO a growable buffer (q = p + i, q = &p[i], q = p) is not used after the buffer may have been
+    reallocated.  The reallocate function may move the block; the buffer variable is reassigned from its result, a pointer computed before
+    is left pointing into the freed block.  May-dataflow: the set of view variables that were taken before a reallocation of their buffer
+    that has happened since; any read of such a variable (dereference, argument, arithmetic, comparison with anything but NULL) is
+    reported, an assignment to it clears it."""
+    blocks = sa.blocks_by_id(fn)
+    views = {}                      # q id -> buffer id  (every definition of q is based on that buffer, or NULL / 0)
+    defs = collections.defaultdict(list)
+    for b in fn["blocks"]:
+        for el in b["elems"]:
+            def f(n):
+                if n.get("k") == "binop" and n["op"] == "=" and var(n["l"]) is not None and "*" in strip(n["l"]).get("ct", ""):
+                    defs[var(n["l"])].append(n["r"])
+                if n.get("k") == "decl":
+                    for d_ in n["decls"]:
+                        if "init" in d_ and "*" in d_["var"].get("ct", ""):
+                            defs[d_["var"]["id"]].append(d_["init"])
+            sa.walk(el["e"], f)
+
+    def based_on(e):
+        e = strip(e)
+        if not isinstance(e, dict):
+            return None
+        if e.get("k") == "int" and e["v"] == 0:
+            return "null"
+        if e.get("k") == "var":
+            return e["id"] if e["id"] in bufs else None
+        if e.get("k") == "binop" and e["op"] in ("+", "-"):
+            return based_on(e["l"]) if based_on(e["l"]) not in (None, "null") else None
+        if e.get("k") == "unop" and e["op"] == "&" and strip(e["e"]).get("k") == "index":
+            b_ = based_on(strip(e["e"])["base"])
+            return b_ if b_ != "null" else None
+        return None
+    for q, rs in defs.items():
+        if q in bufs:
+            continue
+        bs = {based_on(r) for r in rs}
+        real = bs - {"null"}
+        if len(real) == 1 and None not in bs:
+            views[q] = next(iter(real))
+    if not views:
+        return
+    if path != FIXTURE:
+        res["stats"]["bufgrow_views"] += len(views)
+
+    def reallocs(e):
+        """buffers that e reassigns from the reallocate function (or from a helper that hands the block back)"""
+        out = set()
+
+        def f(n):
+            if n.get("k") == "binop" and n["op"] == "=" and var(n["l"]) in bufs:
+                r = strip(n["r"])
+                if isinstance(r, dict) and r.get("k") == "call" and ((r.get("callee") is None and akind(r) == "realloc") or r.get("callee") in passthru):
+                    out.add(var(n["l"]))
+        sa.walk(e, f)
+        return out
+    IN = {fn["entry"]: frozenset()}
+    work = {fn["entry"]}
+    reported = set()
+    while work:
+        bid = max(work)
+        work.discard(bid)
+        st = set(IN[bid])
+        for el in blocks[bid]["elems"]:
+            e = el["e"]
+            # reads of stale views (not: the left side of a plain assignment, a comparison with NULL)
+            def rd(n, top=[True]):
+                if n.get("k") == "binop" and n["op"] == "=" and var(n["l"]) in views:
+                    sa.walk(n["r"], rd)
+                    return False
+                if n.get("k") == "binop" and n["op"] in ("==", "!=") and ((var(n["l"]) in views and based_on(n["r"]) == "null") or
+                                                                       (var(n["r"]) in views and based_on(n["l"]) == "null")):
+                    return False
+                if n.get("k") == "var" and n["id"] in st and (el["line"], n["id"]) not in reported:
+                    reported.add((el["line"], n["id"]))
+                    f_ = Finding(prop, "R-BUFGROW", path, el["line"], fn["name"], "stale-view:%s" % n.get("name", "?"),
+                                 "%s points into the growable buffer and was set before a reallocation of that buffer that may have happened "
+                                 "since; it is used at line %d without being recomputed (the reallocate function may move the block)"
+                                 % (n.get("name", "?"), el["line"]))
+                    if path == FIXTURE:
+                        fx[fn["name"]] += 1
+                    else:
+                        res["findings"].append(f_)
+            sa.walk(e, rd)
+            for bufid in reallocs(e):
+                st |= {q for q, b_ in views.items() if b_ == bufid}
+            # assignments to a view refresh it (after the reads of this element)
+            def asg(n):
+                if n.get("k") == "binop" and n["op"] == "=" and var(n["l"]) in views:
+                    st.discard(var(n["l"]))
+                if n.get("k") == "decl":
+                    for d_ in n["decls"]:
+                        if d_["var"]["id"] in views and "init" in d_:
+                            st.discard(d_["var"]["id"])
+            sa.walk(e, asg)
+        if blocks[bid].get("noreturn"):
+            continue
+        for s_ in blocks[bid]["succs"]:
+            if not isinstance(s_, int) or s_ == fn["exit"]:
+                continue
+            cur = IN.get(s_)
+            new = frozenset(st) if cur is None else cur | frozenset(st)
+            if cur is None or new != cur:
+                IN[s_] = new
+                work.add(s_)
+
+
 def run_bufgrow(prop="C04", tier="quick"):
     """R-BUFGROW: a byte buffer that is grown on demand is only appended to where the path has established room.  For every local buffer p
     obtained from the allocate / reallocate function with a size variable A, and every fill index i that the function compares with A
@@ -866,6 +974,7 @@ def run_bufgrow(prop="C04", tier="quick"):
     ex = sa.export(sa.cfg_builtfx())
     sa.check_errors(ex)
     fx = collections.Counter()
+    passthru = passthrough_summaries(ex)
 
     def strip(e):
         while isinstance(e, dict) and e.get("k") in ("cast", "paren"):
@@ -900,6 +1009,7 @@ def run_bufgrow(prop="C04", tier="quick"):
         if not bufs:
             continue
         blocks = sa.blocks_by_id(fn)
+        stale_views(fn, path, bufs, passthru, prop, res, fx, strip, var)
         # growth checks  i >= A  etc.
         triples = set()
         for b in fn["blocks"]:
@@ -1069,14 +1179,15 @@ def run_bufgrow(prop="C04", tier="quick"):
                         work.add(s_)
             if path != FIXTURE:
                 res["samples"].append(dict(rule="R-BUFGROW", function=fn["name"], file=relpath(path)))
-    if not fx.get("fix_bufgrow_bad") or fx.get("fix_bufgrow_good") or not fx.get("fix_bufgrow_bad2") or fx.get("fix_bufgrow_good2"):
+    if not fx.get("fix_bufgrow_bad") or fx.get("fix_bufgrow_good") or not fx.get("fix_bufgrow_bad2") or fx.get("fix_bufgrow_good2") \
+            or not fx.get("fix_bufview_bad") or fx.get("fix_bufview_good"):
         raise AnalysisBroken("R-BUFGROW fixtures: %r" % dict(fx))
     if res["stats"]["bufgrow_appends"] < 3:
         raise AnalysisBroken("R-BUFGROW: only %d append stores into growable buffers found (floor 3)" % res["stats"]["bufgrow_appends"])
     res["stats"] = dict(res["stats"])
     res["obligations"] = res["stats"]["bufgrow_appends"] + res["stats"].get("bufgrow_other_index", 0)
     res["undecided"] = res["stats"].get("bufgrow_other_index", 0)
-    res["notes"].append("fixtures: 2 positive fired, 2 negative silent")
+    res["notes"].append("fixtures: 3 positive fired, 3 negative silent")
     res["exhaustive"] = True
     return res
 
